@@ -260,3 +260,50 @@ func TestIncremental(t *testing.T) {
 	}
 	t.Logf("%d schedules %v", full.Schedules, full.ByCost)
 }
+
+// Delay bounding: deterministic round-robin default, every departure counted.
+func TestDelayBounding(t *testing.T) {
+	mk := func() vsched.Instance {
+		x := 0
+		var mu vsync.Mutex
+		var wg vsync.WaitGroup
+		body := func() {
+			wg.Add(3)
+			for i := 0; i < 3; i++ {
+				vsched.Go(func() {
+					mu.Lock()
+					v := x
+					mu.Unlock()
+					mu.Lock()
+					x = v + 1
+					mu.Unlock()
+					wg.Done()
+				})
+			}
+			wg.Wait()
+		}
+		return vsched.Instance{Body: body, Judge: func(res *vsched.Result) vsched.Judgement { return vsched.Judgement{Obs: fmt.Sprint(x)} }}
+	}
+	run := func(bound int) (vsched.Stats, map[string]int) {
+		out := map[string]int{}
+		st := vsched.Explore(vsched.Config{Options: vsched.Options{DelayBounding: true}, MaxCost: bound, Workers: 4, New: mk,
+			Visit: func(ch []uint8, res *vsched.Result, j vsched.Judgement) { out[j.Obs]++ }})
+		if len(st.Infra) > 0 {
+			t.Fatalf("infra: %v", st.Infra)
+		}
+		return st, out
+	}
+	st0, o0 := run(0)
+	if st0.Schedules != 1 || o0["3"] != 1 {
+		t.Fatalf("bound 0 must be the single deterministic schedule: %d %v", st0.Schedules, o0)
+	}
+	st2, o2 := run(2)
+	if o2["2"] == 0 {
+		t.Fatalf("bound 2 did not find a lost update: %v", o2)
+	}
+	pst := vsched.Explore(vsched.Config{MaxCost: 2, Workers: 4, New: mk})
+	t.Logf("delay bound 2: %d schedules %v outcomes %v; preemption bound 2: %d schedules", st2.Schedules, st2.ByCost, o2, pst.Schedules)
+	if st2.Schedules >= pst.Schedules {
+		t.Fatalf("delay bounding should explore fewer schedules than preemption bounding at the same bound")
+	}
+}
